@@ -9,7 +9,7 @@ NT = set("several-metadata-replies,full-refresh-removes-connected-broker,broker-
 
 
 class Eng(cl.CLEngine):
-    MACROS = ["warmup", "notleader", "notleader", "readdress", "readdress", "remove", "remove2", "partial", "topicgone", "topicgone"]
+    MACROS = ["warmup", "notleader", "notleader", "readdress", "readdress", "remove", "remove2", "partial", "topicgone", "topicgone", "noconn", "noconn"]
     MACRO_ONE_IN = 8
 
     def nontrivial(self):
